@@ -52,7 +52,7 @@ def source_chain(f, op, limit=14):
             t = o[1]
             out.append(t.get("resolved_full") or t.get("resolved") or t.get("callee") or "indirect")
             c = t.get("callee") or ""
-            if t["args"] and (c in ("std::ops::Try::branch", "std::clone::Clone::clone", "std::ops::Deref::deref") or re.search(r"(Option|Result)::<.*>::(unwrap|as_ref|expect|clone|unwrap_or)$", c) or c.endswith("unwrap_bigint") or c.endswith("::get")):
+            if t["args"] and (c in ("std::ops::Try::branch", "std::clone::Clone::clone", "std::ops::Deref::deref", "std::borrow::Borrow::borrow", "std::convert::AsRef::as_ref") or re.search(r"(Option|Result)::<.*>::(unwrap|as_ref|expect|clone|unwrap_or)$", c) or c.endswith("unwrap_bigint") or c.endswith("::get")):
                 o = f.origin_op(t["args"][0]) if not c.endswith("::get") else None
                 if c.endswith("::get"):
                     break
@@ -395,3 +395,215 @@ def rejections(run, R="REJ"):
                         if report_error_in_region(ev, reg) and err_return_in_region(ev, reg):
                             ok = True
         run.check(ok, R, R + "|symbol|unknown-is-error", ev.loc(), "an Unknown symbol value is an error when guessing is not allowed", "eval_variable no longer reports an unresolved symbol in the last pass")
+
+
+# ---------------------------------------------------------------------------------------------- C14 inclusion
+
+FS_API = re.compile(r"^(std::fs::|std::path::Path::(exists|try_exists|is_file|is_dir|is_symlink|read_dir|metadata|canonicalize|read_link|symlink_metadata)|std::env::(current_dir|set_current_dir))")
+
+
+def _iterates_param(g, op, pname):
+    """op is an element of the slice parameter `pname`, obtained from its iterator"""
+    ch = source_chain(g, op)
+    if not any(c.endswith("Iterator::next") or c.endswith("Iterator>::next") for c in ch):
+        return False
+    for bi, t in g.calls():
+        if (t.get("callee") or "").endswith("IntoIterator::into_iter") and "param:" + pname in " ".join(source_chain(g, t["args"][0])):
+            return True
+    return False
+
+
+def inclusion(run, R="INC"):
+    prog = run.prog
+    nav = run.anchor(R, "file_navigation::filename_navigate")
+    # INC1: names that reach get_handle inside asm:: come from filename_navigate (or are the file name parameter of
+    # parse_and_resolve_includes, whose callers pass root names or navigated names)
+    n = 0
+    for f in prog.real_fns():
+        if not f.id.startswith("asm::"):
+            continue
+        for bi, t in f.calls():
+            if not (t.get("callee") or "").endswith("FileServer::get_handle"):
+                continue
+            n += 1
+            ch = " ".join(source_chain(f, t["args"][3]))
+            key = "%s|navigated|%s" % (R, f.id)
+            if "filename_navigate" in ch:
+                run.ok(R, key, f.loc(t["span"]), "%s opens a name produced by filename_navigate" % f.id)
+            elif "param:root_filename" in ch and f.id.endswith("parse_and_resolve_includes"):
+                # its callers
+                ok = True
+                for g in prog.real_fns():
+                    for b2, t2 in g.calls():
+                        if (t2.get("resolved") or "") == f.id:
+                            c2 = " ".join(source_chain(g, t2["args"][3]))
+                            if not ("filename_navigate" in c2 or (g.id.endswith("parse_many_and_resolve_includes") and _iterates_param(g, t2["args"][3], "root_filenames"))):
+                                ok = False
+                run.check(ok, R, key, f.loc(t["span"]), "%s opens its file name parameter, which is a root file or a navigated name at every call site" % f.id,
+                          "%s is called with a file name that is neither a root file name nor the result of filename_navigate" % f.id)
+            else:
+                run.violation(R, key, f.loc(t["span"]), "%s opens `%s`, which did not pass filename_navigate: relative resolution and confinement would be bypassed" % (f.id, ch[:120]))
+    run.floor(R, "get_handle call sites in asm::", n, 3)
+    # INC2: filename_navigate validates and collapses; `..` past the start is an error
+    if nav:
+        val = calls_to(nav, "file_navigation::filename_validate_relative")
+        oks = [bi for bi, si, st in nav.stmts() if st["k"] == "assign" and st["place"]["l"] == 0 and not st["place"]["p"] and st["rv"]["k"] == "agg" and st["rv"].get("variant") == "Ok"]
+        std_ok = []
+        other_ok = []
+        for b in oks:
+            # the early return for <std>/ names is the one dominated by the true edge of is_std_path
+            from rules_fix import edge_true_dominates
+            if edge_true_dominates(nav, lambda d: "is_std_path" in d, b):
+                std_ok.append(b)
+            else:
+                other_ok.append(b)
+        ok = bool(val) and bool(other_ok) and all(guarded_by_success(nav, val, b) is not None for b in other_ok)
+        run.check(ok, R, R + "|navigate|validated", nav.loc(), "every non-<std> result of filename_navigate passed filename_validate_relative",
+                  "filename_navigate can return a path that did not pass filename_validate_relative")
+        run.check(len(std_ok) <= 1, R, R + "|navigate|std-early-return", nav.loc(), "only <std>/ names are returned verbatim", "several verbatim returns in filename_navigate")
+        # `..` with an empty stack -> error + Err; the pop happens only on the other edge
+        found = False
+        for bi, t in nav.calls():
+            if (t.get("callee") or "") == "std::cmp::PartialEq::eq" and any(T.promoted_str(prog, nav, x) == ".." for x in t["args"]) and t["target"] is not None:
+                sw = T.switch_after(nav, t["target"], t["dest"]["l"])
+                if sw is None:
+                    continue
+                swb = sw[2] if len(sw) > 2 else t["target"]
+                reg = T.dominated_region(nav, sw[0], swb)
+                removes = [b3 for b3, t3 in T.region_calls(nav, reg) if (t3.get("callee") or "").endswith("::remove") or (t3.get("callee") or "").endswith("::pop")]
+                if not removes:
+                    continue
+                okr = True
+                for rb in removes:
+                    g_ok = False
+                    for b2 in reg:
+                        t2 = nav.blocks[b2]["term"]
+                        if t2["k"] != "switch":
+                            continue
+                        ss = nav.succs(b2)
+                        for e in ss:
+                            if nav.edge_dominates(b2, e, rb):
+                                for o_ in ss:
+                                    if o_ != e:
+                                        r2 = T.dominated_region(nav, o_, b2)
+                                        if report_error_in_region(nav, r2) and err_return_in_region(nav, r2):
+                                            g_ok = True
+                    okr = okr and g_ok
+                found = found or okr
+        run.check(found, R, R + "|navigate|dotdot-confined", nav.loc(), "`..` with nothing left to pop is reported and rejected", "filename_navigate no longer rejects `..` past the start of the path")
+    # real file system only behind `!is_std_path`, and only inside the file server
+    allowed = run.table("mpt")["fs_users"]
+    n = 0
+    for f in prog.real_fns():
+        for bi, t in f.calls():
+            c = t.get("callee") or ""
+            if FS_API.match(c):
+                n += 1
+                root = f.raw.get("root") or f.id
+                run.check(root in allowed, R, "%s|fs-user|%s" % (R, root), f.loc(t["span"]), "%s uses the file system API (audited: %s)" % (root, allowed.get(root, "")),
+                          "%s calls `%s` but is not an audited user of the file system: files must only be opened through the file server" % (root, c))
+    run.floor(R, "file system API call sites", n, 3)
+    gh = [g for g in prog.real_fns() if g.id.endswith("FileServerReal as util::fileserver::FileServer>::get_handle")]
+    if len(gh) != 1:
+        run.violation(R, R + "|std-never-on-disk|anchor", "-", "mechanism not found: FileServerReal::get_handle")
+    else:
+        g = gh[0]
+        ex = [bi for bi, t in g.calls() if (t.get("callee") or "").endswith("Path::exists")]
+        ins = [bi for bi, t in g.calls() if (t.get("callee") or "").endswith("::insert")]
+        isstd = calls_to(g, "file_navigation::is_std_path")
+        ok = bool(isstd) and bool(ins)
+        if ok:
+            ib, it = isstd[0]
+            sw = T.switch_after(g, it["target"], it["dest"]["l"]) if it["target"] is not None else None
+            if sw is None:
+                ok = False
+            else:
+                true_reg = set()
+                work = [sw[0]]
+                # blocks reachable from the `is std` edge must not register a new handle
+                from rules_fix import reach_from
+                # the true edge may share its target with the `!exists` edge (an `||`): what matters is that no insert is
+                # reachable from it
+                true_reach = reach_from(g, sw[0])
+                ok = not any(b in true_reach for b in ins)
+        run.check(ok, R, R + "|std-never-on-disk", g.loc(), "FileServerReal::get_handle never registers a <std>/ name from the file system",
+                  "FileServerReal::get_handle can look a `<std>/...` name up on the real file system: with a directory named `<std>` in the working directory, `<std>/../../x` escapes the project")
+    # INC3: cycle detection and #once
+    pr = run.anchor(R, "asm::parser::parse_and_resolve_includes")
+    if pr:
+        rec = [(bi, t) for bi, t in pr.calls() if (t.get("resolved") or "") == pr.id]
+        cont = [(bi, t) for bi, t in pr.calls() if (t.get("callee") or "").endswith("::contains")]
+        push = [bi for bi, t in pr.calls() if (t.get("callee") or "").endswith("Vec::<T, A>::push") and "seen_filenames" in " ".join(source_chain(pr, t["args"][0]))]
+        pop = [bi for bi, t in pr.calls() if (t.get("callee") or "").endswith("Vec::<T, A>::pop") and "seen_filenames" in " ".join(source_chain(pr, t["args"][0]))]
+        seen_c = [(bi, t) for bi, t in cont if "seen_filenames" in " ".join(source_chain(pr, t["args"][0]))]
+        once_c = [(bi, t) for bi, t in cont if "once_filenames" in " ".join(source_chain(pr, t["args"][0]))]
+        ok = len(rec) == 1 and len(seen_c) == 1
+        if ok:
+            rb, rt = rec[0]
+            cb, ct = seen_c[0]
+            sw = T.switch_after(pr, ct["target"], ct["dest"]["l"])
+            ok = sw is not None and pr.edge_dominates(ct["target"], sw[1], rb)
+            if ok:
+                treg = T.dominated_region(pr, sw[0], ct["target"])
+                ok = report_error_in_region(pr, treg) and err_return_in_region(pr, treg)
+        run.check(ok, R, R + "|cycle", pr.loc(), "the recursive inclusion happens only on the `not already on the include stack` edge; the other edge reports and fails",
+                  "parse_and_resolve_includes can recurse into a file that is already on the include stack (or no longer reports the cycle): inclusion cycles loop until the stack overflows")
+        okp = len(rec) == 1 and bool(push) and bool(pop) and all(pr.dominates(p_, rec[0][0]) for p_ in push) and all(pr.dominates(rec[0][0], p_) for p_ in pop)
+        run.check(okp, R, R + "|cycle|stack", pr.loc(), "the include stack is pushed before and popped after the recursive call",
+                  "the include stack is not pushed before / popped after the recursive call: sibling includes of the same file would be rejected, or cycles missed")
+        # the name pushed and tested is the navigated name
+        okn = all("filename_navigate" in " ".join(source_chain(pr, t["args"][1])) for bi, t in seen_c)
+        run.check(okn, R, R + "|cycle|same-name", pr.loc(), "the cycle test uses the navigated (normalised) file name", "the cycle test does not use the navigated file name")
+        # once
+        gh_calls = [(bi, t) for bi, t in pr.calls() if (t.get("callee") or "").endswith("FileServer::get_handle")]
+        oko = len(once_c) == 1 and bool(gh_calls)
+        if oko:
+            cb, ct = once_c[0]
+            sw = T.switch_after(pr, ct["target"], ct["dest"]["l"])
+            oko = sw is not None and all(pr.edge_dominates(ct["target"], sw[1], b) for b, _ in gh_calls)
+        run.check(oko, R, R + "|once|tested-first", pr.loc(), "a file marked #once is skipped before it is opened again", "the #once set is not consulted before opening the file")
+        ins = [(bi, t) for bi, t in pr.calls() if (t.get("callee") or "").endswith("HashSet::<T, S, A>::insert") or ((t.get("callee") or "").endswith("::insert") and "once_filenames" in " ".join(source_chain(pr, t["args"][0])))]
+        anyc = [(bi, t) for bi, t in pr.calls() if (t.get("callee") or "") == "std::iter::Iterator::any"]
+        oki = len(ins) == 1 and len(anyc) == 1
+        if oki:
+            ab, at = anyc[0]
+            sw = T.switch_after(pr, at["target"], at["dest"]["l"])
+            oki = sw is not None and pr.edge_dominates(at["target"], sw[0], ins[0][0])
+            # the closure looks for DirectiveOnce
+            from mir import closure_of_origin
+            cid = closure_of_origin(pr.origin_op(at["args"][1]))
+            g2 = prog.fn(cid) if cid else None
+            has_once = False
+            if g2:
+                for bi2, si2, st2 in g2.stmts():
+                    if st2["k"] == "assign" and st2["rv"]["k"] == "discr":
+                        vs = st2["rv"].get("variants") or {}
+                        tt = g2.blocks[bi2]["term"]
+                        if tt["k"] == "switch":
+                            for v, tg in tt["targets"]:
+                                if vs.get(v) == "DirectiveOnce":
+                                    has_once = True
+            oki = oki and has_once
+        run.check(oki, R, R + "|once|marked", pr.loc(), "a file enters the #once set exactly when its AST contains a #once directive",
+                  "the #once set is no longer filled on the `contains a DirectiveOnce node` edge")
+    # INC4: range tests dominate the slice in the inclusion functions
+    for name in ("eval_fn::eval_builtin_incbin", "eval_fn::eval_builtin_incstr"):
+        g = run.anchor(R, name)
+        if not g:
+            continue
+        sl = [(bi, t) for bi, t in g.calls() if (t.get("callee") or "") == "std::ops::Index::index" and "Range" in " ".join(t.get("arg_tys", []))] + calls_to(g, "BigInt::slice")
+        tests = []
+        for bi, si, st in g.stmts():
+            if st["k"] == "assign" and st["rv"]["k"] == "binop" and st["rv"]["op"] in ("Ge", "Gt"):
+                tt = g.blocks[bi]["term"]
+                if tt["k"] == "switch":
+                    reg = T.dominated_region(g, tt["otherwise"], bi)
+                    if report_error_in_region(g, reg) and err_return_in_region(g, reg):
+                        ft = [tg for v, tg in tt["targets"] if v == "0"][0]
+                        deps = [nm for nm in ("start", "end") if any(value_depends_on(g, st["rv"]["l"], l) for l in g.locals_named(nm))]
+                        tests.append((bi, ft, deps))
+        starts = [x for x in tests if x[2] == ["start"]]
+        ends = [x for x in tests if "end" in x[2]]
+        ok = bool(sl) and bool(starts) and bool(ends) and all(any(g.edge_dominates(b, ft, sb) for b, ft, d in starts) and any(g.edge_dominates(b, ft, sb) for b, ft, d in ends) for sb, _ in sl)
+        run.check(ok, R, "%s|range|%s" % (R, name.rsplit("::", 1)[-1]), g.loc(), "%s: the slice of the file contents is behind the `start < len` and `end <= len` edges" % name.rsplit("::", 1)[-1],
+                  "%s can slice the file contents without having passed both range tests (start after EOF / end after EOF)" % name.rsplit("::", 1)[-1])
